@@ -61,6 +61,9 @@ CHECKS = {
  "C01": (True, "E1", "exploration", E1,
   "All 35 operator methods of the table (read from OpMethod, checked to be installed on Stream) x route (dunder call / Python syntax) x other-operand kind (Stream, list, tuple, generator, scalar, periodic Stream, constant Stream) x length pairs {0..3}^2 x element types (int, bool, float, complex, Fraction, 2x2 matrix for @) against an independent interpreter that also predicts where and with which exception type an element-level error surfaces; 131k expression trees of depth <=2 (thorough ~1.6M incl. binary combinations of depth-1 trees) over int leaves; every function of lazy_math/lazy_midi x 12 container kinds x positional/keyword route (scalar -> scalar equal to the plain math value, container kind preserved, lazy kinds give a generator that reads nothing before being consumed and one item per output), secondary parameters and the elementwise decorator itself.",
   "Length/depth bounds; element alphabets; where Python's own dispatch transforms an operand before the Stream sees it (Fraction ** Stream) the syntax route is not demanded."),
+ "C02": (True, "E1", "exploration", E1 + " with counting / tripwire sources",
+  "A catalogue of ~120 processing stages (Stream operators and methods, thub/tee, every classified name of lazy_itertools, constant and time-varying filters, cascade/parallel, designed filters with stream parameters, blocks/zero_pad/chunks, moving averages, envelopes, amdf, clip, zcross, unwrap, Streamix, modulo_counter/TableLookup with stream arguments, resample x 4 ratios x 4 orders, overlap_add.list with declared and detected size, the STFT wrapper) each with the source allowance the statement grants for k outputs, run on counting sources over an endless sequence with a tripwire one item beyond the allowance: zero reads at construction, pull counts after each of k = 1..8 (24) outputs, no read-ahead when a limit(n) downstream is drained or a finite stage ends; all 2-stage (thorough 3-stage) compositions of composable stages with composed allowances.",
+  "K bound; filter memory is not a source; eager itertools (product, permutations, combinations) excluded by definition."),
 }
 
 NOT_YET = "check not built yet in this session; see DESIGN.md section 4 for the planned model-checking harness"
